@@ -494,7 +494,16 @@ func TestVerifAccess(t *testing.T) {
 				}
 				ran, seenAddr = false, ""
 				w := httptest.NewRecorder()
-				cc.ServeHTTP(w, req)
+				panicked := ""
+				func() {
+					// net/http recovers a panicking handler per connection: the request is simply not served
+					defer func() {
+						if e := recover(); e != nil {
+							panicked = fmt.Sprint(e)
+						}
+					}()
+					cc.ServeHTTP(w, req)
+				}()
 				nrun++
 				runs++
 
@@ -502,6 +511,8 @@ func TestVerifAccess(t *testing.T) {
 				switch {
 				case ran:
 					got = "served"
+				case panicked != "":
+					got = "panic"
 				case w.Code == 401:
 					got = "unauthorized"
 				case w.Code == 403:
